@@ -718,6 +718,21 @@ Proof.
   - left. exact B.
 Qed.
 
+(* the metadata commit happened (and possibly the file creation after it left an empty
+   file): the real disk is related to a disk [dm] the shadow run passes through, which
+   lists [ps] and keeps every file of the shadow's starting disk *)
+Definition post_commit (X : list fname) (ec ec' : env) (d' : disk) (ps : pstate) : Prop :=
+  exists dm, drel X d' dm /\ pfx ec ec' dm /\ dk_meta dm = Some ps /\
+    (forall n, lookup n (dk_files (e_disk ec)) <> None -> lookup n (dk_files dm) = lookup n (dk_files (e_disk ec))) /\
+    dk_stable dm = dk_stable (e_disk ec).
+
+Lemma post_commit_shift X ec0 ec ec' d' ps : aext ec0 ec -> e_disk ec = e_disk ec0 ->
+  post_commit X ec ec' d' ps -> post_commit X ec0 ec' d' ps.
+Proof.
+  intros Ha Hd (dm & A & B & C & D & E). exists dm. split; [exact A|]. split; [eapply pfx_shift; eauto|].
+  split; [exact C|]. rewrite <- Hd. auto.
+Qed.
+
 Definition dels_of (defer : bool) (rc : result) (t : txn) : list fname :=
   match rc with ROk => if defer then [] else tx_delete t | _ => [] end.
 
@@ -728,12 +743,10 @@ Lemma mutate_gen_lock X defer w t e ec r w' e' dl rc wc' ec' dlc : R X e ec ->
   (e_fault e' = None /\ r = RErrIO /\ dl = [] /\
    ((w' = w /\ e_disk e' = e_disk e) \/
     (rc = ROk /\ w' = set_failed w /\ tx_create t <> None /\
-     exists dm, drel X (e_disk e') dm /\ pfx ec ec' dm /\ dk_meta dm = Some (tx_ps t) /\
-       (forall n, lookup n (dk_files (e_disk ec)) <> None -> lookup n (dk_files dm) = lookup n (dk_files (e_disk ec))) /\
-       dk_stable dm = dk_stable (e_disk ec) /\
-       dk_meta (e_disk ec') = Some (tx_ps t) /\
-       (defer = false -> forall n, In n (tx_delete t) -> lookup n (dk_files (e_disk ec')) = None) /\
-       NoDup (map fst (dk_files (e_disk ec')))))).
+     post_commit X ec ec' (e_disk e') (tx_ps t) /\
+     dk_meta (e_disk ec') = Some (tx_ps t) /\
+     (defer = false -> forall n, In n (tx_delete t) -> lookup n (dk_files (e_disk ec')) = None) /\
+     NoDup (map fst (dk_files (e_disk ec')))))).
 Proof.
   intros HR. unfold mutate_gen. fold (tx_ps t).
   destruct (io_lock X (ACommit (tx_ps t)) e ec HR (conj I eq_refl)) as (Ec & [(e1 & Er & HR1 & _)|(e1 & Er & D & F & _)]); rewrite Ec, Er; cbn [negb].
@@ -769,14 +782,15 @@ Proof.
       assert (Hsl : seg_create si ec1 = (Some (new_wseg si), ec2)) by exact Esc.
       destruct (seg_create_some _ _ _ _ Hsl) as (_ & Hfresh).
       destruct Hreal as [Hd|Hd].
-      * exists (e_disk ec1). split; [rewrite Hd; apply HR1|].
+      * split; [|split; [exact Hm'|split; [exact Hdel'|exact ND']]].
+        exists (e_disk ec1). split; [rewrite Hd; apply HR1|].
         split; [eapply pfx_more; [apply (pfx_end ec ec1); exact Ha1|]; eapply aext_trans; [exact A1|apply Hsh]|].
-        split; [reflexivity|]. split; [intros n _; reflexivity|]. split; [reflexivity|]. split; [exact Hm'|]. split; [exact Hdel'|exact ND'].
-      * exists (e_disk ec2). split; [exact Hd|].
+        split; [reflexivity|]. split; [intros n _; reflexivity|reflexivity].
+      * split; [|split; [exact Hm'|split; [exact Hdel'|exact ND']]].
+        exists (e_disk ec2). split; [exact Hd|].
         split; [eapply pfx_more; [apply (pfx_end ec ec2); eapply aext_trans; eauto|apply Hsh]|].
-        split; [exact Hm2|]. split.
-        { intros n Hn. rewrite Dc. cbn [apply_act dk_files]. apply lookup_update_neq. intros ->. apply Hn. exact Hfresh. }
-        split; [rewrite Dc; reflexivity|]. split; [exact Hm'|]. split; [exact Hdel'|exact ND'].
+        split; [exact Hm2|]. split; [|rewrite Dc; reflexivity].
+        intros n Hn. rewrite Dc. cbn [apply_act dk_files]. apply lookup_update_neq. intros ->. apply Hn. exact Hfresh.
   - destruct defer; intros E1 E2; inversion E1; inversion E2; subst; left.
     + split; [reflexivity|]. split; [reflexivity|]. split; [reflexivity|]. split; [apply Rd_of_R; exact HR1|congruence].
     + split; [reflexivity|]. split; [reflexivity|]. split; [reflexivity|]. split; [|congruence].
@@ -790,20 +804,18 @@ Lemma mutate_lock X w t e ec r w' e' rc wc' ec' : R X e ec ->
   (e_fault e' = None /\ r = RErrIO /\
    ((w' = w /\ e_disk e' = e_disk e) \/
     (rc = ROk /\ w' = set_failed w /\ tx_create t <> None /\
-     exists dm, drel X (e_disk e') dm /\ pfx ec ec' dm /\ dk_meta dm = Some (tx_ps t) /\
-       (forall n, lookup n (dk_files (e_disk ec)) <> None -> lookup n (dk_files dm) = lookup n (dk_files (e_disk ec))) /\
-       dk_stable dm = dk_stable (e_disk ec) /\
-       dk_meta (e_disk ec') = Some (tx_ps t) /\
-       (forall n, In n (tx_delete t) -> lookup n (dk_files (e_disk ec')) = None) /\
-       NoDup (map fst (dk_files (e_disk ec')))))).
+     post_commit X ec ec' (e_disk e') (tx_ps t) /\
+     dk_meta (e_disk ec') = Some (tx_ps t) /\
+     (forall n, In n (tx_delete t) -> lookup n (dk_files (e_disk ec')) = None) /\
+     NoDup (map fst (dk_files (e_disk ec')))))).
 Proof.
   intros HR. unfold mutate.
   destruct (mutate_gen false w t e) as [[[r0 w0] e0] d0] eqn:E1.
   destruct (mutate_gen false w t ec) as [[[rc0 wc0] ec0] dc0] eqn:E2.
   intros K1 K2; inversion K1; inversion K2; subst.
-  destruct (mutate_gen_lock X false w t e ec _ _ _ _ _ _ _ _ HR E1 E2) as [(A & B & C & D & F)|(A & B & C & [D|(D0 & D1 & D2 & dm & D3 & D4 & D5 & D6 & D6' & D7 & D8 & D9)])].
+  destruct (mutate_gen_lock X false w t e ec _ _ _ _ _ _ _ _ HR E1 E2) as [(A & B & C & D & F)|(A & B & C & [D|(D0 & D1 & D2 & D3 & D7 & D8 & D9)])].
   - left. auto.
   - right. auto.
   - right. split; [exact A|]. split; [exact B|]. right. split; [exact D0|]. split; [exact D1|]. split; [exact D2|].
-    exists dm. split; [exact D3|]. split; [exact D4|]. split; [exact D5|]. split; [exact D6|]. split; [exact D6'|]. split; [exact D7|]. split; [apply D8; reflexivity|exact D9].
+    split; [exact D3|]. split; [exact D7|]. split; [apply D8; reflexivity|exact D9].
 Qed.
